@@ -152,7 +152,7 @@ where
         · cases h
         · split at h
           · cases h
-          · refine ih r1 r' (s.step f hd) s' (fun g hg => hfr g (by simp [hg])) ?_ h
+          · refine ih r1 r' (s.step c f hd) s' (fun g hg => hfr g (by simp [hg])) ?_ h
             intro m hm'
             simp only [PState.step, List.mem_append, List.mem_singleton] at hm'
             rcases hm' with hm' | rfl
